@@ -60,6 +60,8 @@ impl Writer {
             ));
         }
 
+        #[cfg(walrus_verif)]
+        crate::wal::verif::yield_point("w_before_lock");
         let mut block = self.current_block.lock().map_err(|_| {
             std::io::Error::new(std::io::ErrorKind::Other, "current_block lock poisoned")
         })?;
@@ -209,6 +211,8 @@ impl Writer {
             total_bytes
         );
 
+        #[cfg(walrus_verif)]
+        crate::wal::verif::yield_point("bw_after_flag");
         // Phase 1: Pre-allocation & Planning
         let mut block = self.current_block.lock().map_err(|_| {
             std::io::Error::new(std::io::ErrorKind::Other, "current_block lock poisoned")
